@@ -152,8 +152,50 @@ fn probe(world: &World) -> (Vec<String>, Vec<String>) {
     (shared, excl)
 }
 
+/// Fetching a handle must need nothing beyond what it declares - not even for a moment: with every
+/// resource it does not declare held exclusively by somebody else, and every resource it declares to
+/// read held shared by somebody else, the fetch must still succeed.  Returns the names of the
+/// resources whose foreign borrow made the fetch fail.
+fn hostile<F: Fn(&World)>(world: &World, decl_r: &[String], decl_w: &[String], fetch: F) -> Vec<String> {
+    let mut failed = vec![];
+    macro_rules! h {
+        ($t:ty, $n:expr) => {{
+            let n: &str = $n;
+            if decl_w.iter().any(|x| x == n) {
+                // declared as written: nobody else may hold it
+            } else if decl_r.iter().any(|x| x == n) {
+                let _other = world.fetch::<$t>();
+                if catch(|| fetch(world)).is_err() {
+                    failed.push(format!("{} (held shared by another reader)", n));
+                }
+            } else {
+                let _other = world.fetch_mut::<$t>();
+                if catch(|| fetch(world)).is_err() {
+                    failed.push(format!("{} (not declared, held exclusively by somebody else)", n));
+                }
+            }
+        }};
+    }
+    h!(EntitiesRes, "Entities");
+    h!(MaskedStorage<DA>, "A");
+    h!(MaskedStorage<DB>, "B");
+    h!(MaskedStorage<DC>, "C");
+    h!(MaskedStorage<DZ>, "Z");
+    h!(MaskedStorage<DF>, "F");
+    h!(LazyUpdate, "Lazy");
+    h!(MaskedStorage<DX>, "X");
+    h!(MaskedStorage<DY>, "Y");
+    failed
+}
+
 fn table(tid: &Value) -> Value {
     let world = new_world();
+    // (a deferred deletion is pending while the handles are fetched)
+    {
+        let ents = world.entities();
+        let e = ents.create();
+        let _ = ents.delete(e);
+    }
     let mut rows = vec![];
     macro_rules! row {
         ($name:expr, $t:ty) => {{
@@ -162,7 +204,10 @@ fn table(tid: &Value) -> Value {
             let held = <$t as SystemData>::fetch(&world);
             let (shared, excl) = probe(&world);
             drop(held);
-            rows.push(json!({"name": $name, "decl_r": dr, "decl_w": dw, "shared": shared, "excl": excl}));
+            let hostile_failed = hostile(&world, &dr, &dw, |w| {
+                let _h = <$t as SystemData>::fetch(w);
+            });
+            rows.push(json!({"name": $name, "decl_r": dr, "decl_w": dw, "shared": shared, "excl": excl, "hostile": hostile_failed}));
         }};
     }
     row!("ReadStorage<A:VecStorage>", ReadStorage<DA>);
